@@ -24,7 +24,7 @@ type ruleTriple struct {
 
 // 大 (U+5927), 丬 (U+4E2C), ħ (U+0127), Ĭ (U+012C), ż (U+017C), Ľ (U+013D): runes whose code point
 // modulo 256 is one of the metacharacters ' , | = — a scanner that narrows runes to bytes confuses them
-var c14Plain = []rune("abcXYZ019测试调四川~/()=:.- _大丬ħĬżĽ")
+var c14Plain = []rune("abcXYZ019测试调四川~/()=:.- _大丬ħĬżĽ%%sdv")
 
 func c14Plainish(rng *rand.Rand, n int, noEq bool) string {
 	var sb strings.Builder
@@ -89,6 +89,12 @@ func c14Triple(rng *rand.Rand) ruleTriple {
 			}
 			if t.Key != "in" && t.Key != "include" && rng.Intn(12) == 0 {
 				t.Val = []string{"=", "=="}[rng.Intn(2)] + t.Val // raw form (and a value that itself begins with '=')
+			}
+			if t.Key != "in" && t.Key != "include" && rng.Intn(40) == 0 {
+				t.Val = "=" // raw form with nothing after the '=': "key=" / "key=|message", an empty value
+			}
+			if rng.Intn(25) == 0 { // text that a formatting function would take for a verb
+				t.Val = []string{"%", "100%", "%s", "%d%%", "%v/%v", "a%!b", "%[1]s", "%5.2f"}[rng.Intn(8)]
 			}
 		}
 	}
@@ -165,7 +171,7 @@ func init() {
 
 func runC14(c *core.Ctx) {
 	res := c.Res
-	res.Assume("documented restrictions on rule text: commas only inside single-quoted segments, quotes only as balanced wrapping pairs, '|' not inside a value, values do not start with '=', a message is non-empty when present")
+	res.Assume("documented restrictions on rule text: commas only inside single-quoted segments, quotes only as balanced wrapping pairs, '|' not inside a value, a value does not start with = except in the raw form (=v, ==v, and = alone for an empty value), a message is non-empty when present")
 	rng := c.Rng("roundtrip")
 	N := c.Pick(60000, 600000)
 	for i := 0; i < N; i++ {
